@@ -34,9 +34,22 @@ REFUSALS = ("ValueError", "RuntimeError", "AssertionError", "TypeError")
 
 
 # ------------------------------------------------------------------------------------------------
-# fake RPC handler (duck-typed `RPCHandler`): records what `create_job` receives, after a JSON round trip
+# fake RPC handler (duck-typed `RPCHandler`): records what `create_job` receives, after a JSON round trip; the
+# scenario scripts what the network does to each creation request
 # ------------------------------------------------------------------------------------------------
+# what the network does to ONE job-creation request (scripted per execution by the scenario):
+#   ok              delivered, the platform answers with the job id
+#   lost            delivered — the job exists platform side — but the answer never comes back (read time-out)
+#   unreachable     not delivered (name resolution / connection refused)
+#   connect-timeout not delivered (connection time-out)
+#   refused         the platform answers with an HTTP error: no job created
+NETS = ("ok", "lost", "unreachable", "connect-timeout", "refused")
+LEAN_NET = {"ok": "ok", "lost": "lost", "unreachable": "down", "connect-timeout": "down", "refused": "down"}
+
+
 class FakeHandler:
+    """Duck-typed `RPCHandler`.  `log` = the job-creation requests that reached the platform (every one of them
+    is a remote job, whether or not the client got the answer), `attempts` = calls of `create_job`."""
     name = "sim:verif"
     url = "https://verif.invalid"
     proxies = None
@@ -54,16 +67,38 @@ class FakeHandler:
             specs["constraints"] = cons
         self._details = {"specs": specs, "type": pf.get("type", "simulator"), "perfs": {}, "status": "available"}
         self.log = []
+        self.attempts = 0
+        self.script = []          # behaviour of the next creation requests, then "ok"
+        self.raised = []          # the exception objects this handler raised
 
     def fetch_platform_details(self):
         return copy.deepcopy(self._details)
 
+    def _raise(self, exc):
+        self.raised.append(exc)
+        raise exc
+
     def create_job(self, payload):
-        self.log.append(json.loads(json.dumps(payload)))
+        import requests
+        self.attempts += 1
+        net = self.script.pop(0) if self.script else "ok"
+        if net == "unreachable":
+            self._raise(requests.exceptions.ConnectionError("Name or service not known"))
+        if net == "connect-timeout":
+            self._raise(requests.exceptions.ConnectTimeout("connect timeout=10"))
+        if net == "refused":
+            self._raise(requests.exceptions.HTTPError("Bad request"))
+        self.log.append(json.loads(json.dumps(payload)))      # from here on the job exists platform side
+        if net == "lost":
+            self._raise(requests.exceptions.ReadTimeout("read timeout=10"))
         return f"job-{len(self.log)}"
 
     def get_job_status(self, job_id):
-        return {"status": "waiting", "progress": 0, "progress_message": "", "status_message": ""}
+        return {"status": "completed", "progress": 1., "progress_message": "", "status_message": "",
+                "creation_datetime": 0., "start_time": 0., "duration": 0}
+
+    def get_job_results(self, job_id):
+        return {"results": json.dumps({"results": ":PCVL:BSDistribution:{|1,0>=1}", "physical_perf": 1})}
 
     def cancel_job(self, job_id):
         pass
@@ -166,6 +201,10 @@ def post_equiv(ps_sent, ps_user, perm, size):
         if a != b:
             return False
     return True
+
+
+def pf_text(pf):
+    return {k: pf.get(k) for k in ("max_modes", "min_modes", "max_photons", "min_photons")}
 
 
 def pv_ok(x):
@@ -457,29 +496,105 @@ def gen_ops(rng, tr, n_ops):
             st["ms"] = ms
         return {"op": "sampler", "ms": ms}
 
-    def iters_op():
+    def breaking_state():
+        """An input state the platform (or the processor) cannot accept: too many / too few photons for the
+        platform's photon-count window, or not the size of the processor's modes of interest."""
+        m, pf = st["m"], tr.get("pf", {})
+        kinds = ["size"]
+        if pf.get("max_photons") is not None:
+            kinds += ["max", "max", "max"]
+        if pf.get("min_photons"):
+            kinds += ["min"]
+        kind = rng.choice(kinds)
+        if kind == "max" and m >= 1:
+            s = [0] * m
+            for _ in range(pf["max_photons"] + 1):
+                s[rng.randrange(m)] += 1
+            return s
+        if kind == "min" and m >= 1:
+            return [0] * m                 # breaks min_photon_count unless heralds bring the photons
+        return gen_state(rng, max(1, m + rng.choice([-1, 1, 1, 2])), 3)
+
+    def iters_op(probe=False):
+        """Iterations for the sampler.  `probe`: one iteration of the list carries something that must be refused
+        (an input state breaking a platform constraint, an unknown / non-numeric circuit parameter) next to any
+        combination of other, legal keys in any order."""
         stale_all()
         m = st["m"]
+        pf = tr.get("pf", {})
         its = []
-        for _ in range(rng.randint(1, 3)):
+        n_its = rng.randint(1, 3)
+        # a scan: every iteration of the list has the same keys in the same order (the usual shape of a list)
+        scan = rng.random() < 0.4
+        if scan:
+            n_its = rng.randint(2, 4)
+        bad_at = rng.randrange(n_its) if probe else None
+        if probe and scan and rng.random() < 0.7:
+            bad_at = rng.randrange(1, n_its)          # … and the one to refuse is not the first
+        scan_keys = None
+        for idx in range(n_its):
             it = []
             keys = rng.sample(["circuit_params", "input_state", "min_detected_photons", "max_samples", "max_shots",
                                "noise"], rng.randint(1, 3))
+            if scan and probe and scan_keys is None:
+                k0 = "input_state" if (rng.random() < 0.5 or not tr["sym"]) else "circuit_params"
+                if k0 not in keys:
+                    keys.insert(rng.randint(0, len(keys)), k0)
+                scan_what = k0
             if not tr["sym"] and "circuit_params" in keys and rng.random() < 0.8:
                 keys.remove("circuit_params")
-            if rng.random() < 0.05:
+            both = False
+            if tr["sym"] and not probe and rng.random() < 0.45:
+                both = True
+                # a scan of a circuit parameter together with the input state: the commonest kind of iteration
+                for key in ("circuit_params", "input_state"):
+                    if key not in keys:
+                        keys.insert(rng.randint(0, len(keys)), key)
+            what = None
+            if scan:
+                if scan_keys is None:
+                    scan_keys = [k for k in keys if tr["sym"] or k != "circuit_params"] or ["max_shots"]
+                keys = list(scan_keys)
+                both = both or probe
+                if idx == bad_at:
+                    what = scan_what
+            elif idx == bad_at:
+                what = "input_state" if (rng.random() < 0.5 or not tr["sym"]) else "circuit_params"
+                if what not in keys:
+                    keys.insert(rng.randint(0, len(keys)), what)
+                r = rng.random()
+                other = "circuit_params" if what == "input_state" else "input_state"
+                if r < 0.25:
+                    keys = [what]                                   # alone
+                elif r < 0.8 and other not in keys and (tr["sym"] or other == "input_state"):
+                    keys.insert(rng.randint(0, len(keys)), other)   # next to the other processor-dependent key
+            if rng.random() < 0.05 and not (scan and probe):
                 keys.insert(rng.randint(0, len(keys)), "foo")
             for key in keys:
-                bad = rng.random() < 0.04
+                bad = rng.random() < 0.04 and what is None and not (scan and probe)
                 if key == "circuit_params":
-                    names = tr["sym"] if (tr["sym"] and rng.random() < 0.92) else ["zeta"]
+                    names = tr["sym"] if (tr["sym"] and (both or rng.random() < 0.92)) else ["zeta"]
+                    if what == key:
+                        names = list(tr["sym"])
+                    elif what is not None and tr["sym"]:
+                        names = list(tr["sym"])                     # legal: the refusal must come from the other key
                     d = [[n, rng.choice([0, 1, 2, 3])] for n in names[:rng.randint(1, len(names))]]
+                    if what == key:
+                        if rng.random() < 0.5:
+                            d.insert(rng.randint(0, len(d)), ["zeta", 1])     # no such parameter in the circuit
+                        else:
+                            d[rng.randrange(len(d))][1] = "one"
                     if bad:
                         d[0][1] = "one"
                     it.append([key, {"cparams": d}])
                 elif key == "input_state":
-                    if bad:
+                    if what == key:
+                        it.append([key, {"state": breaking_state()}])
+                    elif bad:
                         it.append([key, {"other": True}])
+                    elif what is not None or both:
+                        cap = pf.get("max_photons")
+                        it.append([key, {"state": gen_state(rng, m, 3 if cap is None else min(3, cap))}])
                     else:
                         mm = m if rng.random() < 0.93 else m + 1
                         it.append([key, {"state": gen_state(rng, mm, rng.choice([None, 3]))}])
@@ -533,7 +648,20 @@ def gen_ops(rng, tr, n_ops):
             kw.append(["foo", 1])
         if rng.random() < 0.03:
             kw.append(["job_context", 1])
-        return {"op": "execute", "job": j, "args": args, "kw": kw}
+        # what the network does to the creation request, and the entry point used for the execution
+        net = "ok" if rng.random() < 0.78 else rng.choice(["lost", "lost", "lost", "unreachable", "connect-timeout",
+                                                              "refused"])
+        how = "async" if rng.random() < 0.8 else rng.choice(["sync", "call"])
+        return {"op": "execute", "job": j, "args": args, "kw": kw, "net": net, "how": how}
+
+    def execute_ops():
+        """an execution; when the network failed on its creation request, often a second execution of the same job
+        (must be refused: a request whose answer was lost is never sent again)"""
+        op = execute_op()
+        out = [op]
+        if op["op"] == "execute" and op["net"] != "ok" and rng.random() < 0.6:
+            out.append(dict(op, net=rng.choice(["ok", "ok", "lost"]), how=rng.choice(["async", "async", "sync"])))
+        return out
 
     ops = []
     n_cfg = rng.randint(1, max(1, n_ops // 2))
@@ -555,7 +683,14 @@ def gen_ops(rng, tr, n_ops):
         left = max(2, n_ops - len(ops))
         while left > 0:
             r = rng.random()
-            if r < 0.16:
+            if r < 0.11:
+                # something that must be refused inside an iteration list, then a job from that sampler is executed:
+                # what the platform receives is looked at by the direct oracle
+                ops.append(iters_op(probe=True))
+                ops.append(job_op())
+                ops.extend(execute_ops())
+                left -= 2
+            elif r < 0.18:
                 ops.append(iters_op())
             elif r < 0.19:
                 ops.append({"op": "clear_iters"})
@@ -571,10 +706,10 @@ def gen_ops(rng, tr, n_ops):
                 if rng.random() < 0.1:
                     ops.append(config_op() if rng.random() < 0.6 else circuit_op())
                 if rng.random() < 0.9:
-                    ops.append(execute_op())
+                    ops.extend(execute_ops())
             left -= 1
         if st["njobs"] and rng.random() < 0.15:
-            ops.append(execute_op())
+            ops.extend(execute_ops())
     elif rng.random() < 0.5:
         ops.append(circuit_op())
         ops.append(prepare_op())
@@ -591,15 +726,15 @@ def gen_ops(rng, tr, n_ops):
                 ops.append(circuit_op() if rng.random() < 0.75 else config_op())
             if st["sampler"] and rng.random() < 0.6:
                 ops.append(job_op())
-                ops.append(execute_op())
+                ops.extend(execute_ops())
             else:
                 ops.append(prepare_op())
     return ops
 
 
 def gen_scenario(rng, max_m, max_ops):
-    tr = {}
     pf = gen_pf(rng)
+    tr = {"pf": pf}
     start = gen_start(rng, tr, max_m)
     ops = gen_ops(rng, tr, rng.randint(3, max_ops))
     return {"pf": pf, "start": start, "ops": ops}
@@ -645,7 +780,7 @@ class Session:
         # what the user configured (direct oracle)
         self.intent = {"filter": None, "noise": None, "post": None, "input": None, "input_fresh": False,
                        "heralds": {}, "circ": None, "converted": False, "local_heralds": {}, "max_shots": None,
-                       "sampler_its": []}
+                       "sampler_its": [], "sampler_its_bad": []}
 
     # -- ids -------------------------------------------------------------------------------------
     def noise_id(self, spec):
@@ -1028,6 +1163,7 @@ class Session:
                 self.sampler = pcvl.algorithm.Sampler(rp, max_shots_per_call=op["ms"])
                 it["max_shots"] = op["ms"]
                 it["sampler_its"] = []
+                it["sampler_its_bad"] = []
                 return {"done": True}
             self.run_op({"op": k, "ms": op["ms"]}, do)
         elif k == "add_iters":
@@ -1059,6 +1195,8 @@ class Session:
                 lean_its.append(li)
                 real_its.append(ri)
             n0 = self.sampler.n_iterations
+            # direct oracle, evaluated now on the user's own objects: why an iteration must not be accepted
+            verdicts = [self.iteration_illegal(ri) for ri in real_its]
 
             def do():
                 try:
@@ -1067,9 +1205,29 @@ class Session:
                     else:
                         self.sampler.add_iteration_list(real_its)
                 finally:
-                    it["sampler_its"] = it["sampler_its"] + real_its[:self.sampler.n_iterations - n0]
+                    n_acc = self.sampler.n_iterations - n0
+                    it["sampler_its"] = it["sampler_its"] + real_its[:n_acc]
+                    it["sampler_its_bad"] = it["sampler_its_bad"] + verdicts[:n_acc]
                 return {"done": True}
             self.run_op({"op": k, "its": lean_its}, do)
+            n_acc = self.sampler.n_iterations - n0
+            for ri, v in zip(real_its[:n_acc], verdicts[:n_acc]):
+                if v is None and "input_state" in ri and "circuit_params" in ri:
+                    self.flags.add("iter-accepted:input+cparams")
+            if "err" in self.outs[-1] and 0 <= n_acc < len(real_its) and verdicts[n_acc] is not None:
+                ri, (what, _) = real_its[n_acc], verdicts[n_acc]
+                keys = list(ri)
+                other = "circuit_params" if what.startswith("input") else "input_state"
+                mine = "input_state" if what.startswith("input") else "circuit_params"
+                shape = "alone" if len(keys) == 1 else ("with-" + ("cparams" if other == "circuit_params" else "input")
+                                                        if other in keys else "with-other")
+                self.flags.add(f"iter-refused:{what}")
+                if n_acc >= 1 and list(real_its[0]) == keys:
+                    self.flags.add("iter-refused:later-iteration-of-a-scan")     # same keys as the first, accepted, one
+                self.flags.add(f"iter-refused:{mine}:{shape}")
+                if other in keys:
+                    self.flags.add(f"iter-refused:{mine}:{'before' if keys.index(mine) < keys.index(other) else 'after'}-"
+                                   f"{'cparams' if other == 'circuit_params' else 'input'}")
         elif k == "clear_iters":
             if self.sampler is None:
                 return False
@@ -1077,6 +1235,7 @@ class Session:
             def do():
                 self.sampler.clear_iterations()
                 it["sampler_its"] = []
+                it["sampler_its_bad"] = []
                 return {"done": True}
             self.run_op({"op": k}, do)
         elif k == "job":
@@ -1086,7 +1245,7 @@ class Session:
             def do():
                 job = getattr(self.sampler, op["method"])
                 self.jobs.append([job, False, op["method"], list(it["sampler_its"]), it["max_shots"], self.snapshot(),
-                                  self.epoch, self.request_made()])
+                                  self.epoch, self.request_made(), list(it["sampler_its_bad"]), False])
                 return {"done": True}
             self.run_op({"op": k, "method": op["method"]}, do)
         elif k == "execute":
@@ -1097,26 +1256,129 @@ class Session:
             if rec[6] != self.epoch:
                 return False
             kw = {a: b for a, b in op["kw"]}
+            net = op.get("net", "ok")
+            how = op.get("how", "async")
+            h = self.h
 
             def do():
-                rec[0].execute_async(*op["args"], **kw)
-                rec[1] = True
-                self.n_sent += 1
                 from perceval.serialization import deserialize
-                sent = deserialize(self.h.log[-1])
-                self.flags.add("execute-sent")
-                self.check_payload(sent["payload"], None, set(), False, False, rec)
-                self.check_limit(sent["payload"], op["args"], kw)
-                for kind in rec[7]:
-                    self.flags.add(kind + "-between-payloads")
-                    self.flags.add(kind + "-between-jobs")
-                if sent.get("job_name") != rec[2]:
-                    self.oracle_failures.append(("job-name", f"job_name {sent.get('job_name')} != {rec[2]}"))
-                return {"sent": {"job_name": sent.get("job_name"), "payload": sent["payload"]}}
-            self.run_op({"op": k, "job": op["job"], "args": op["args"], "kw": [[a, b] for a, b in kw.items()]}, do)
+                n0, a0 = len(h.log), h.attempts
+                h.script = [net]      # what happens to the creation request; anything the client emits after it is answered
+                err = None
+                try:
+                    if how == "sync":
+                        rec[0].execute_sync(*op["args"], **kw)
+                    elif how == "call":
+                        rec[0](*op["args"], **kw)
+                    else:
+                        rec[0].execute_async(*op["args"], **kw)
+                except Exception as e:
+                    err = e
+                finally:
+                    h.script = []
+                got = h.log[n0:]
+                n_att = h.attempts - a0
+                self.n_sent = len(h.log)
+                # direct oracle: ONE execution creates at most one remote job, exactly one when it returns normally
+                if len(got) > 1:
+                    self.fail("create-job-count",
+                              f"ONE execution ({how}, network: {net}) made the platform receive {len(got)} job-creation "
+                              f"requests ({n_att} emitted): {len(got)} remote jobs exist for one execution"
+                              + ("" if err is None else f"; the call raised {type(err).__name__}"))
+                elif err is None and len(got) != 1:
+                    self.fail("create-job-count", f"the execution ({how}) returned normally but the platform received "
+                                                  f"{len(got)} job-creation requests")
+                sents = []
+                for i, raw in enumerate(got):
+                    sent = deserialize(raw)
+                    sents.append(sent)
+                    self.check_payload(sent["payload"], None, set(), False, False, rec)
+                    if i == 0:
+                        self.check_limit(sent["payload"], op["args"], kw)
+                    if sent.get("job_name") != rec[2]:
+                        self.oracle_failures.append(("job-name", f"job_name {sent.get('job_name')} != {rec[2]}"))
+                if got:
+                    self.flags.add("execute-sent")
+                    for kind in rec[7]:
+                        self.flags.add(kind + "-between-payloads")
+                        self.flags.add(kind + "-between-jobs")
+                out_sent = None if not sents else {"job_name": sents[0].get("job_name"), "payload": sents[0]["payload"]}
+                if err is None:
+                    rec[1] = True
+                    if how != "async":
+                        self.flags.add("execute-sync")
+                    return {"sent": out_sent, "attempts": n_att}
+                if rec[9] and type(err).__name__ == "AssertionError":
+                    self.flags.add("execute-refused-after-failed-transport")
+                if any(err is x for x in h.raised):
+                    # the exception of the (fake) network reaches the user as it is
+                    rec[9] = True
+                    self.flags.add("execute-answer-lost" if net == "lost" else "execute-not-delivered")
+                    out = {"err": "TransportError", "msg": f"{type(err).__name__}: {err}"[:160], "attempts": n_att}
+                    if out_sent is not None:
+                        out["received"] = out_sent
+                    return out
+                out = {"err": type(err).__name__, "msg": str(err)[:160], "attempts": n_att}
+                if out_sent is not None:
+                    out["received"] = out_sent
+                return out
+            self.run_op({"op": k, "job": op["job"], "args": op["args"], "kw": [[a, b] for a, b in kw.items()],
+                         "net": LEAN_NET[net]}, do)
         else:
             raise ValueError(k)
         return True
+
+    def user_layout(self):
+        """(modes of interest, photons brought by the heralds) of the processor the user built — from the scenario
+        and the calls that succeeded, not from the remote processor under test"""
+        it = self.intent
+        if it["converted"]:
+            return self.local.m, sum(it["local_heralds"].values())
+        return self.scen["start"]["m"] - len(it["heralds"]), sum(it["heralds"].values())
+
+    def user_param_names(self):
+        """names of the variable parameters of the user's circuit (from the scenario's specs)"""
+        cs = self.cs
+        if cs is None:
+            return set()
+        kind, spec = cs["base"]
+        if kind == "remote":
+            names = set(sym_names(spec))
+        else:
+            names = set(sym_names(spec["circ"])) if spec.get("base") == "circuit" else set()
+        for _, sp in cs["extra"]:
+            names |= set(sym_names(sp))
+        return names
+
+    def iteration_illegal(self, ri):
+        """Direct oracle for one iteration dictionary, at the time it is added: None, or (kind, why) when the platform
+        constraints / the user's processor do not allow it — whatever the other keys of the iteration are."""
+        from numbers import Number
+        from perceval import BasicState
+        pf = self.scen["pf"]
+        s = ri.get("input_state")
+        if isinstance(s, BasicState):
+            m_user, n_her = self.user_layout()
+            if s.m != m_user:
+                return ("input-size", f"iterated input state {s} has {s.m} modes, the processor has {m_user} modes of "
+                                      f"interest")
+            n = s.n + n_her
+            if pf["max_photons"] is not None and n > pf["max_photons"]:
+                return ("input-photons", f"iterated input state {s} (+{n_her} herald photons) has {n} photons, the "
+                                         f"platform accepts at most {pf['max_photons']}")
+            if pf["min_photons"] is not None and n < pf["min_photons"]:
+                return ("input-photons", f"iterated input state {s} (+{n_her} herald photons) has {n} photons, the "
+                                         f"platform needs at least {pf['min_photons']}")
+        cp = ri.get("circuit_params")
+        if isinstance(cp, dict):
+            names = self.user_param_names()
+            for name, v in cp.items():
+                if not isinstance(v, Number):
+                    return ("cparams-value", f"iterated circuit parameter {name} = {v!r} is not a number")
+                if name not in names:
+                    return ("cparams-name", f"iterated circuit parameter {name} does not exist in the user's circuit "
+                                            f"(parameters: {sorted(names)})")
+        return None
 
     def request_made(self):
         """A request (payload) has just been built from the processor: what the user changed since the previous one."""
@@ -1271,6 +1533,15 @@ class Session:
                     self.fail("payload-iterator", f"iterator sent {got!r} != configured {its!r}")
                 else:
                     self.flags.add("iterator-sent")
+                    if any("input_state" in a and "circuit_params" in a for a in its):
+                        self.flags.add("iterator-sent:input+cparams")
+                # constraints / validity of what is iterated, as judged when each iteration was added
+                for a, v in zip(its, jobrec[8]):
+                    if v is not None:
+                        kind, why = v
+                        self.fail("constraints-iterated-input" if kind.startswith("input") else "iterator-invalid-sent",
+                                  f"a job was sent to the platform (constraints {pf_text(self.scen['pf'])}) with an "
+                                  f"iteration {sorted(a)} that must have been refused: {why}")
             elif "iterator" in pl:
                 self.fail("payload-iterator", f"no iteration configured, sent {got!r}")
         # constraints
@@ -1450,6 +1721,15 @@ def compare(ses: Session, rep):
     for i, (lop, ro, rs) in enumerate(zip(ses.lean_ops, ses.outs, ses.states)):
         mo, ms = outs[i], states[i]
         where = f"op {i} {lop['op']}"
+        if lop["op"] == "execute" and "attempts" in ro:
+            # the model calls `create_job` once per execution that passes the client-side checks, never again
+            want = 1 if ("sent" in mo or mo.get("err") == "TransportError") else 0
+            if ro["attempts"] != want:
+                if not any(k == "violation" for k, *_ in res):
+                    res.append(("broken", "model-vs-code:execute:attempts",
+                                f"{where}: implementation called create_job {ro['attempts']} times for one execution "
+                                f"(network: {lop['net']}), model {want}"))
+                return res
         if "err" in ro or "err" in mo:
             if ro.get("err") != mo.get("err"):
                 known = any(k == "violation" for k, *_ in res)
@@ -1458,6 +1738,22 @@ def compare(ses: Session, rep):
                                 f"{where}: implementation {ro.get('err', 'ok')} ({ro.get('msg', '')}) vs model "
                                 f"{mo.get('err', 'ok')}"))
                 return res
+            if ("received" in ro) != ("received" in mo):
+                if not any(k == "violation" for k, *_ in res):
+                    res.append(("broken", "model-vs-code:execute:received",
+                                f"{where}: platform received a request: implementation {'received' in ro}, model "
+                                f"{'received' in mo}"))
+                return res
+            if "received" in ro:
+                r = mo["received"]
+                bad = diff_payload(ses, ro["received"]["payload"], r["payload"], r["iterator"])
+                if ro["received"]["job_name"] != r["job_name"]:
+                    bad.append("job_name")
+                if bad:
+                    if not any(k == "violation" for k, *_ in res):
+                        res.append(("broken", "model-vs-code:execute:" + ",".join(bad),
+                                    f"{where}: received fields differ: {bad}"))
+                    return res
         elif "payload" in ro:
             bad = diff_payload(ses, ro["payload"], mo.get("payload", []))
             if bad:
@@ -1467,8 +1763,11 @@ def compare(ses: Session, rep):
                 return res
         elif "sent" in ro:
             s = mo.get("sent")
-            if s is None:
-                res.append(("broken", "model-vs-code:execute:outcome", f"{where}: model sent nothing"))
+            if s is None or ro["sent"] is None:
+                if not (ro["sent"] is None and any(k == "violation" for k, *_ in res)):
+                    res.append(("broken", "model-vs-code:execute:outcome", f"{where}: model sent "
+                                f"{'nothing' if s is None else 'a request'}, implementation "
+                                f"{'nothing' if ro['sent'] is None else 'a request'}"))
                 return res
             bad = diff_payload(ses, ro["sent"]["payload"], s["payload"], s["iterator"])
             if ro["sent"]["job_name"] != s["job_name"]:
@@ -1502,7 +1801,8 @@ def sig_of(scen, ses):
     pf = scen["pf"]
     return (st["kind"], st.get("base"), st.get("m"), tuple(tuple(h) for h in (ses.states[0] or {}).get("heralds", [])),
             tuple(pf.get(k) for k in ("max_modes", "min_modes", "max_photons", "min_photons")), tuple(pf["commands"]),
-            tuple((o["op"], o.get("method"), len(o.get("args", [])), o.get("n"), tuple(o.get("s", []))) for o in ses.lean_ops))
+            tuple((o["op"], o.get("method"), len(o.get("args", [])), o.get("n"), tuple(o.get("s", [])), o.get("net"))
+                  for o in ses.lean_ops))
 
 
 def account(chk, scen, ses, rep, corpus=False):
@@ -1526,7 +1826,12 @@ def account(chk, scen, ses, rep, corpus=False):
             if "err" in ro:
                 chk.count("error", lop["op"] + ":" + ro["err"])
                 if lop["op"] == "execute":
-                    chk.branch("handle-params-rejected" if ro["err"] in ("RuntimeError", "IndexError") else "execute-typeerror")
+                    if ro["err"] in ("RuntimeError", "IndexError"):
+                        chk.branch("handle-params-rejected")
+                    elif ro["err"] == "TypeError":
+                        chk.branch("execute-typeerror")
+                    if "received" in ro:
+                        n_payload += 1
                 if lop["op"] == "job" and ro["err"] == "RuntimeError":
                     chk.branch("primitive-none-or-constraints")
                 if lop["op"] == "add_iters":
@@ -1535,7 +1840,7 @@ def account(chk, scen, ses, rep, corpus=False):
                 n_payload += 1
                 if lop["kw"] and any(k in FIELD_KEYS for k, _ in lop["kw"]):
                     chk.branch("kw-collision")
-            elif "sent" in ro:
+            elif "sent" in ro and ro["sent"] is not None:
                 n_payload += 1
                 pl = ro["sent"]["payload"]
                 jc = pl.get("job_context")
@@ -1623,8 +1928,11 @@ def run(chk: core.Check):
                 "and heralds, or local processor with circuit, catalog gates, heralds anywhere, ports, post-selection, "
                 "noise, filter, input converted by from_local_processor) x 3..N public calls (setters, circuit "
                 "changes between requests of the same processor: P.set_value, set_circuit via processor or experiment, "
-                "add of a component; prepare_job_payload with kwargs, Sampler, iterations, job creation for 3 methods, execute_async with "
-                "positional/keyword arguments); distinct = distinct (start, heralds, constraints, commands, op "
+                "add of a component; prepare_job_payload with kwargs, Sampler, iterations incl. ones that must be refused (input "
+                "state breaking the photon window / the size, unknown or non-numeric circuit parameter) alone and next to "
+                "every other key in either order, job creation for 3 methods, execute_async / execute_sync / __call__ with "
+                "positional/keyword arguments while the fake network answers, loses the answer after delivery, is "
+                "unreachable, times out on connection or refuses); distinct = distinct (start, heralds, constraints, commands, op "
                 "sequence) signatures; non-trivial = at least one payload was produced and compared")
     chk.assumptions = [
         "circuits, post-selections and noise models are symbols in the model; the correspondence resolves them on the "
@@ -1634,7 +1942,13 @@ def run(chk: core.Check):
         "no change of processor._parameters (filter, set_parameter, clear_parameters) or of the sampler's iterator list "
         "between job creation and execute_async: the payload aliases both; the harness drops such executions on what "
         "actually ran (not modelled)",
-        "a job is executed at most once after a successful send (double execute_async is C17's finding)",
+        "a job is executed at most once after a successful send (double execute_async is C17's finding); a job whose "
+        "creation request failed on the network IS executed again (must be refused, nothing re-sent)",
+        "the network is a scripted fake at the rpc_handler.create_job level (real requests exception classes); every "
+        "request that reaches the fake platform counts as a remote job, answered or not; a retry after a request that "
+        "was NOT delivered is reported as a model/code difference only, not as a violation",
+        "an iteration is judged (size, photon window with herald photons, parameter names/values) against the user's "
+        "processor as it is when the iteration is added — a later add_herald / set_circuit is not re-judged",
         "add_herald only on existing modes, at least one mode of interest kept; BasicState inputs only",
         "the circuit the user means is recomputed from the scenario's specs with fresh objects (base circuit / local "
         "processor, appended components, parameter values set so far), never read back from the processor under test; "
@@ -1652,12 +1966,25 @@ def run(chk: core.Check):
                              "set-circuit-between-payloads", "exp-set-circuit-between-payloads",
                              "add-comp-between-payloads", "set-circuit-between-jobs", "exp-set-circuit-between-jobs",
                              "input-between-payloads", "filter-between-payloads", "noise-between-payloads",
-                             "post-between-payloads", "herald-between-payloads", "circuit-change-on-converted"]
+                             "post-between-payloads", "herald-between-payloads", "circuit-change-on-converted",
+                             # an iteration that must be refused, in every combination with the other keys
+                             "iter-refused:input-photons", "iter-refused:input-size", "iter-refused:cparams-name",
+                             "iter-refused:cparams-value",
+                             "iter-refused:input_state:alone", "iter-refused:input_state:with-cparams",
+                             "iter-refused:input_state:with-other", "iter-refused:input_state:before-cparams",
+                             "iter-refused:input_state:after-cparams",
+                             "iter-refused:circuit_params:with-input", "iter-refused:circuit_params:before-input",
+                             "iter-refused:circuit_params:after-input",
+                             "iter-refused:later-iteration-of-a-scan",
+                             "iter-accepted:input+cparams", "iterator-sent:input+cparams",
+                             # the network fails on the creation request; other execution entry points
+                             "execute-answer-lost", "execute-not-delivered", "execute-sync",
+                             "execute-refused-after-failed-transport"]
     chk.lean = core.LeanDriver("C16")
     for scen in load_corpus():
         handle(chk, scen, corpus=True)
     rng = chk.rng
-    n = chk.pick(500, 8000)
+    n = chk.pick(800, 8000)
     max_m = chk.pick(6, 8)
     max_ops = chk.pick(14, 22)
     batch = 100
